@@ -328,3 +328,66 @@ def _replay(f):
 
 
 BOUNDED = [Bounded('node_tree_representation_invariant', node_tree_invariant, _replay)]
+
+
+# ---- deductive: positions of the lazily built namespace nodes (real code of ElementNode.namespace_nodes) ---------------------------------
+import z3                                                        # noqa: E402
+from pyvc.values import *                                        # noqa: E402,F401
+from pyvc.contract import Contract, Case                         # noqa: E402
+from pyvc.interp import LoopSpec                                 # noqa: E402
+from pyvc.specprims import *                                     # noqa: E402,F401
+from elementpath.xpath_nodes import ElementNode as _ElementNode  # noqa: E402
+
+
+class _Ghost:
+    pass
+
+
+def nsnodes_case(S, ex):
+    """element at position P with an arbitrary in-scope namespace map given as a list E of entries (prefix, uri); ghost counter `created` and the
+    obligation at every NamespaceNode(...) call that its position is P + 1 + created (consecutive from P + 1)."""
+    entries = S.seq('E', K_ITEM)
+    counts = S.seq('C', K_INT)
+    P = S.int('P')
+    ghost = VObj(_Ghost, {'created': VInt(0)}, name='ghost')
+    prefix = z3.Function('entry_prefix', ITEM_SORT, z3.StringSort())
+    uri = z3.Function('entry_uri', ITEM_SORT, ITEM_SORT)
+    nsmap = VObj(_Ghost, {}, name='nsmap')
+    node = VObj(_ElementNode, {'position': P, 'nsmap': nsmap}, name='self')
+
+    def unpack(ex, v, n):
+        return [VStr(prefix(v.t)), VItem(uri(v.t))]
+
+    def new_namespace_node(ex, node_, a, kw):
+        pos = a[3]
+        ex.oblige('namespace_node_positions_are_consecutive_from_P_plus_1', pos.t == P.t + 1 + ghost.fields['created'].t, 'V',
+                  'position of the k-th namespace node created == element position + 1 + k')
+        ghost.fields['created'] = VInt(ghost.fields['created'].t + 1)
+        return VObj(_Ghost, {'position': pos}, name='nsnode')
+
+    def havoc_ghost(ex, env):
+        ghost.fields['created'] = VInt(ex.fresh('created', z3.IntSort()))
+    hooks = {'unpack': unpack, 'NamespaceNode': new_namespace_node, 'hasattr': lambda ex, n_, a, kw: VBool(False),
+             'self.nsmap.items': lambda ex, n_, a, kw: entries, 'self._namespace_nodes.append': lambda ex, n_, a, kw: NONE,
+             ('truthy', '_Ghost'): lambda ex, v: z3.BoolVal(True)}
+    case = Case([node], hooks=hooks, names={'E': entries, 'C': counts, 'P': P, 'ghost': ghost})
+    case.havoc_ghost = havoc_ghost
+    nsnodes_case.havoc = havoc_ghost
+    return case
+
+
+def not_xml(e):
+    return entry_prefix(e) != 'xml'
+
+
+CONTRACTS = [Contract(
+    'ElementNode.namespace_nodes', 'C02', lambda: _ElementNode.namespace_nodes.fget, nsnodes_case,
+    pre=["len(C) == len(E) + 1", "C[0] == 0", "forall_range(0, len(E), lambda j: C[j + 1] == C[j] + (1 if entry_prefix(E[j]) != 'xml' else 0))"],
+    post=[('one_node_for_xml_plus_one_per_other_prefix', "returned and ghost.created == 1 + C[len(E)]")],
+    loops={0: LoopSpec(["_i0 <= len(E)", "ghost.created == 1 + C[_i0]", "position == P + 1 + ghost.created"],
+                       havoc_hook=lambda ex, env: nsnodes_case.havoc(ex, env))},
+    native=None, expect_min_obligations=4,
+    notes=['the in-scope namespace map is an arbitrary list of (prefix, uri) entries; the obligation inside the NamespaceNode hook makes every created node take the '
+           'next free position after the element: together with the count this is "positions P+1 .. P+n, strictly increasing, gap exactly filled"; the non-empty-map '
+           'branch (a truthy nsmap) is the one analysed'])]
+
